@@ -201,7 +201,10 @@ class KdBufParser:
             elif block.tag == TRACEV3_PROCESSES:
                 self.processes = plistlib.loads(block.data)
             elif block.tag == TRACEV3_KERNEL_EXTENSIONS:
-                self.kernel_extensions['Binaries'].extend(plistlib.loads(block.data)['Binaries'])
+                data = plistlib.loads(block.data)
+                binaries = self.kernel_extensions['Binaries'] + data['Binaries']
+                # The other keys of the section are kept too, as for the dyld modules the first block wins.
+                self.kernel_extensions = {**data, **self.kernel_extensions, 'Binaries': binaries}
             elif block.tag == TRACEV3_IMAGES:
                 self.images = plistlib.loads(block.data)
             elif block.tag == TRACEV3_LOG_EVENTS:
